@@ -16,13 +16,17 @@ import (
 func init() { register("C05", runC05, replayC05) }
 
 type c05Case struct {
-	Hist *History  `json:"hist,omitempty"`
-	Sync *SyncCase `json:"sync,omitempty"`
+	Hist  *History    `json:"hist,omitempty"`
+	Sync  *SyncCase   `json:"sync,omitempty"`
+	Fault *xfer.Fault `json:"fault,omitempty"` // Sync only: the transfer is aborted by this stream failure
 }
 
 func (c c05Case) String() string {
 	if c.Hist != nil {
 		return c.Hist.String()
+	}
+	if c.Fault != nil {
+		return fmt.Sprintf("%s fault=%s@%d", c.Sync.String(), c.Fault.End, c.Fault.K)
 	}
 	return c.Sync.String()
 }
@@ -186,6 +190,51 @@ func judgeNotes(o *SyncObs) (string, string) {
 
 const osModeType = 0x8f280000 // os.ModeType
 
+// judgeAbortedNotes: what was reported before a transfer failed must still be true of
+// what is on disk. A file is reported only after all of its bytes were stored, so every
+// reported content file has the announced size and a digest over exactly the stored bytes.
+func judgeAbortedNotes(o *SyncObs) (string, string) {
+	sent := map[string]*types.Stat{}
+	for _, st := range o.Res.Log.Stats() {
+		sent[st.Path] = st
+	}
+	seen := map[string]bool{}
+	for _, n := range o.Notes {
+		if n.Kind == fsutil.ChangeKindDelete {
+			continue
+		}
+		if n.Stat == nil {
+			return "note-without-stat", fmt.Sprintf("%s %s carries no stat", n.Kind, n.Path)
+		}
+		if seen[n.Path] {
+			return "reported-twice", n.Path + " reported twice"
+		}
+		seen[n.Path] = true
+		st := sent[n.Path]
+		if st == nil {
+			return "note-for-unannounced-path", fmt.Sprintf("%s %s was never announced", n.Kind, n.Path)
+		}
+		if !sameStat(st, n.Stat) {
+			return "note-stat-differs", fmt.Sprintf("%s %s reported with %s, sent as %s", n.Kind, n.Path, statString(n.Stat), statString(st))
+		}
+		var data []byte
+		if st.Mode&uint32(osModeType) == 0 && st.Linkname == "" {
+			after := o.After.Find(n.Path)
+			if after == nil || after.Kind != fsmodel.File {
+				return "aborted:reported-file-missing", fmt.Sprintf("%s %s was reported but is not a file in the destination", n.Kind, n.Path)
+			}
+			data = after.Data
+			if int64(len(data)) != st.Size {
+				return "aborted:reported-file-incomplete", fmt.Sprintf("%s %s was reported with size %d but %d bytes are stored (send=%v recv=%v)", n.Kind, n.Path, st.Size, len(data), o.Res.SendErr, o.Res.RecvErr)
+			}
+		}
+		if want := xfer.DigestFor(st, data); n.Digest != want {
+			return "digest-wrong", fmt.Sprintf("%s %s digest %s, hash(header of the stat as sent + %d bytes on disk) is %s", n.Kind, n.Path, n.Digest, len(data), want)
+		}
+	}
+	return "", ""
+}
+
 func judgeC05(c c05Case) (string, string) {
 	var o *SyncObs
 	if c.Hist != nil {
@@ -212,6 +261,19 @@ func judgeC05(c c05Case) (string, string) {
 		}
 		if err := d.resetDst(sc.Dst); err != nil {
 			return "infra", err.Error()
+		}
+		if c.Fault != nil {
+			o = d.transferFault(sc, sc.Src, *c.Fault)
+			if o.Err != "" {
+				return "infra", o.Err
+			}
+			if o.Res.TimedOut {
+				return "aborted-transfer-hangs", "the transfer did not return after the injected stream failure"
+			}
+			if !o.Res.OK() {
+				return judgeAbortedNotes(o)
+			}
+			return judgeNotes(o) // the failing call was never made
 		}
 		o = d.transfer(sc, sc.Src)
 		if o.Err != "" {
@@ -266,6 +328,7 @@ func c05Cases(tier string) []c05Case {
 			}
 		}
 	}
+	out = append(out, c05AbortCases(tier)...)
 	for _, s := range fsmodel.AttrVariants("x") {
 		for _, d := range fsmodel.AttrVariants("x") {
 			if d.Kind == fsmodel.Socket || s.Kind == fsmodel.Socket {
@@ -273,6 +336,37 @@ func c05Cases(tier string) []c05Case {
 			}
 			c := SyncCase{Src: fsmodel.Tree{s}, Dst: fsmodel.Tree{d}, Mem: s.Kind == fsmodel.Char}
 			out = append(out, c05Case{Sync: &c})
+		}
+	}
+	return out
+}
+
+// c05AbortCases: every stream call of a small transfer with a multi-chunk file fails in turn.
+func c05AbortCases(tier string) []c05Case {
+	T := fsmodel.T0
+	f := func(p string, seed, size int, mt int64) fsmodel.Node {
+		return fsmodel.Node{Path: p, Kind: fsmodel.File, Perm: 0644, Mtime: T + mt, Data: fsmodel.Content(seed, size)}
+	}
+	src := fsmodel.Tree{f("big", 1, 98304, 1), {Path: "d", Kind: fsmodel.Dir, Perm: 0755, Mtime: T + 2}, f("d/x", 2, 70000, 3), f("s", 3, 9, 4)}
+	src.Sort()
+	dirty := fsmodel.Tree{f("big", 9, 120000, 7), f("gone", 4, 3, 5), f("s", 3, 9, 4)}
+	dirty.Sort()
+	var out []c05Case
+	for _, dst := range []fsmodel.Tree{nil, dirty} {
+		for _, mem := range []bool{true, false} {
+			if !mem && tier != "thorough" {
+				continue
+			}
+			for _, end := range []string{"R.recv", "S.send", "R.send", "S.recv"} {
+				n := 20 // more than the calls of this transfer: 5 STAT + end + 10 DATA + FIN
+				if end == "R.send" || end == "S.recv" {
+					n = 6
+				}
+				for k := 0; k < n; k++ {
+					c := SyncCase{Src: src, Dst: dst, Mem: mem}
+					out = append(out, c05Case{Sync: &c, Fault: &xfer.Fault{End: end, K: k}})
+				}
+			}
 		}
 	}
 	return out
